@@ -1,12 +1,15 @@
 """seeded generators of model programs (shared by C02-C07, C11)"""
 
-DUR_UNITS = [("s", 1.0), ("min", 60.0), ("ms", 0.001), ("h", 3600.0)]
+# (the factors are this table's own - the reference converts with them, never with the library's unit table)
+DUR_UNITS = [("s", 1.0), ("min", 60.0), ("ms", 0.001), ("sec", 1.0), ("msec", 0.001), ("cs", 0.01), ("ds", 0.1), ("das", 10.0),
+             ("h", 3600.0), ("hr", 3600.0), ("hour", 3600.0), ("ks", 1000.0), ("hs", 100.0), ("day", 86400.0), ("wk", 604800.0), ("week", 604800.0)]
+DUR_FACTOR = dict(DUR_UNITS)
 
 
 def _lit(rng, clock, v):
     """a program literal for the numeric value v (seconds for the duration clock, mixed display units)"""
     if clock == "duration":
-        u, f = rng.choice(DUR_UNITS[:3]) if v < 1000 else rng.choice(DUR_UNITS)
+        u, f = rng.choice(DUR_UNITS)
         if rng.random() < 0.5:
             return [v / f, u]
         return [float(v), "s"]
